@@ -386,7 +386,7 @@ _norm_cache: dict = {}
 
 def normalized_method(src, cls_name: str, method: str, depth: int = 2):
     """the method with calls of helpers of its own class / module inlined and guard clauses turned into nesting"""
-    from ..inline import inline_methods, nest_guards, class_resolver
+    from ..inline import inline_methods, nest_guards, class_resolver, inline_class_constants
     key = (id(src), cls_name, method, depth)
     if key in _norm_cache:
         return _norm_cache[key]
@@ -395,6 +395,7 @@ def normalized_method(src, cls_name: str, method: str, depth: int = 2):
     if fi is None:
         raise AnalysisError('common', f'{cls_name}.{method} not found')
     fn = nest_guards(inline_methods(fi.node, class_resolver(src, ci, fi), depth=depth))
+    fn = inline_class_constants(fn, ci.node, ci.name)
     _norm_cache[key] = (fi, fn)
     return fi, fn
 
@@ -475,8 +476,9 @@ def inlined_function(src, qualname: str, depth: int = 2):
     if fi.cls is None:
         _norm_cache[key] = fi
         return fi
+    from ..inline import inline_class_constants
     f2 = _copy.copy(fi)
-    f2.node = inline_methods(fi.node, class_resolver(src, fi.cls, fi), depth=depth)
+    f2.node = inline_class_constants(inline_methods(fi.node, class_resolver(src, fi.cls, fi), depth=depth), fi.cls.node, fi.cls.name)
     _norm_cache[key] = f2
     return f2
 
